@@ -83,7 +83,16 @@ Definition post_process (i : initializer) (shape : list V) : result :=
   | None, None => RMat (mkDesc (i_func i) shape PNone rest)
   end.
 
-(* Initializer.__call__( *shape, **kwargs):   init = deepcopy(self); init._kwargs.update(kwargs)  *)
+(* "no seed" never erases the seed the initializer was partially applied with:
+     curried_seed = init._kwargs.get("seed"); init._kwargs.update(kwargs)
+     if init._kwargs.get("seed") is None and curried_seed is not None: init._kwargs["seed"] = curried_seed *)
+Definition keep_seed (old new : kwargs) : kwargs :=
+  match not_none (kw_get "seed" new), not_none (kw_get "seed" old) with
+  | None, Some c => kw_set "seed" c new
+  | _, _ => new
+  end.
+
+(* Initializer.__call__( *shape, **kwargs):   init = deepcopy(self); init._kwargs.update(kwargs) (+ keep_seed)  *)
 Definition call (self : initializer) (shape : list V) (kw : kwargs) : result :=
   if kw_has "sr" kw && negb (i_autorize_sr self) then RErr ESrNotAuthorized
   else if kw_has "input_scaling" kw && negb (i_autorize_is self) then RErr EInputScalingNotAuthorized
@@ -94,7 +103,7 @@ Definition call (self : initializer) (shape : list V) (kw : kwargs) : result :=
                   | [a] => [a; a]
                   | _ => new_shape
                   end in
-    let init := mkInit (i_func self) (kw_update (i_kwargs self) kw')
+    let init := mkInit (i_func self) (keep_seed (i_kwargs self) (kw_update (i_kwargs self) kw'))
                        (i_autorize_sr self) (i_autorize_is self) (i_autorize_rescaling self) in
     match shape' with
     | _ :: _ => if i_autorize_rescaling init then post_process init shape'
@@ -128,7 +137,7 @@ Arguments i_autorize_sr {V}. Arguments i_autorize_is {V}. Arguments i_autorize_r
 Arguments PNone {V}. Arguments PSr {V}. Arguments PInputScaling {V}. Arguments mkDesc {V}.
 Arguments d_func {V}. Arguments d_shape {V}. Arguments d_post {V}. Arguments d_kwargs {V}.
 Arguments RErr {V}. Arguments RInit {V}. Arguments RMat {V}. Arguments not_none {V}.
-Arguments post_process {V}. Arguments call {V}. Arguments hcall {V}. Arguments hrun {V}.
+Arguments keep_seed {V}. Arguments post_process {V}. Arguments call {V}. Arguments hcall {V}. Arguments hrun {V}.
 
 (* ------------------------------------------------------------------------------------------------ Part 1b *)
 (* A keyword VALUE that is a reference to a mutable object: a numpy Generator stored as [seed] in a partial application.
